@@ -564,6 +564,18 @@ def runBlockingC08 (line : String) : String :=
     C09.truncation_discards_exactly_capacity, C08.drain_on_close), no duplicates, per-sender order. -/
 def runMt (line : String) : String :=
   match Sexp.parse line with
+  -- the receiver dropped while another thread holds the state lock: afterwards the channel is closed, whoever held
+  -- the lock (C06.closed_after_receiver_drop); computed, not printed as a constant
+  | some (.list [.atom "rxdrop", .atom holder]) =>
+    if holder == "push" || holder == "len" then
+      let cfg : Cfg := ⟨8, 10, 1, 10, 1, 10⟩
+      let s := if holder == "push" then send cfg init 1 else init
+      match dropReceiver s with
+      | some s' =>
+        (match (trySend cfg s' 2).2 with | .closed => "try=closed" | .ok => "try=ok" | .full _ => "try=full") ++
+          s!"\trxdrop-{holder}"
+      | none => "bad-op"
+    else "bad-op"
   | some (.list [.atom "mt", cap, senders, per, .atom mode, seed]) =>
     match cap.nat?.filter (· ≥ 1), senders.nat?.filter (fun n => n ≥ 1 ∧ n ≤ 16), per.nat?.filter (· ≤ 100000),
           seed.nat? with
